@@ -414,6 +414,8 @@ class RandomSource:
         self.timed = [s for s in self.nondef if shape["durOf"][s] != -1]
         # a per-trace style so that some traces are "continuously engaged" and others erratic
         self.style = rng.choice(["steady", "steady", "erratic", "sparse"])
+        # a few traces hand over with next_state_now() again and again inside one iteration (up to 13 frames deep)
+        self.deep = rng.random() < 0.06
         self.period = rng.choice([1, 1, 2, 3, 5])
         # machines that work on their own: the default state's function starts a must_finish (timed) state - a chain of
         # them - and nobody calls engage(); the loop just keeps iterating
@@ -513,6 +515,8 @@ class RandomSource:
         if m.steps and m.steps[-1]["in"]["e"] in ("execute", "aiter", "nsnow") and m.steps[-1]["out"].get("cb"):
             self.nth = 0          # a state function was just entered
         self.nth += 1
+        if self.deep and self.nth == 1 and m.depth < 13 and not getattr(m, "stopped_in_iter", False) and rng.random() < 0.9:
+            return {"e": "nsnow", "s": rng.choice(self.nondef)}
         if self.nth > 1 and rng.random() < 0.6:
             return None           # most state functions do at most one thing
         if getattr(m, "stopped_in_iter", False):
